@@ -99,19 +99,19 @@ def finish(prop, tier, seed, runner, res, t0, level, rule, extra_cov=None, gen_s
     viol = [v for v in res["verdicts"] if v[2] == prop]
     other = [v for v in res["verdicts"] if v[2] != prop]
     known = tv.known_entries()
-    known_by_key = {k["key"]: k for k in known}
+    known_by_key = {k["key"]: k for k in known if k["property"] == prop}
     printed = set()
     for (si, ri, key, outcome) in res["knowns"]:
         ent = known_by_key.get(key)
-        if ent and ent["property"] == prop and key not in printed:
+        if ent and key not in printed:
             printed.add(key)
             print("KNOWN-FINDING: property=%s %s" % (prop, ent["what"]))
     rc = 0
     seen = set()
     for (si, ri, p, tag, outcome) in viol:
-        if (tag, outcome.split("/")[0]) in seen:
+        if (tag, outcome) in seen:
             continue
-        seen.add((tag, outcome.split("/")[0]))
+        seen.add((tag, outcome))
         sess = runner.sessions[si]
         s2, r2 = shrink(prop, sess, ri, tag)
         path = write_replay(prop, s2, r2, tag, outcome)
